@@ -7,7 +7,10 @@ list of fault points.  Then, for every point k *before draw()'s own clean-up sta
 {KeyboardInterrupt, RuntimeError} x mode {raise instead of the call, raise after it completed, and - for
 writes - raise after a prefix of the data was delivered, for every prefix length} x delivery discipline
 {the rest of the interrupted write is lost, the rest stays in the stream's buffer}, draw() is executed
-again with that single fault.
+again with that single fault.  Besides the unbuffered stdout (write() delivers at once) the buffered
+disciplines of world.VStdout are enumerated: "full" (data reaches the terminal at flush(); a fault during
+that hand-over delivers any prefix of everything pending) and "line" (a write with a newline hands over).
+Configurations include images / renderables whose current frame is not 0 (tell() must survive).
 
 "Before its own clean-up starts" is decided on the payloads of the fault-free run: clean-up is the
 maximal trailing run of calls that only emit restoring sequences (newline, cursor-down, SGR reset,
@@ -67,6 +70,27 @@ def baseline(case):
         else:
             pts.append((n, kind, None))
     b.points = pts
+    # what each point hands over to the terminal (None: nothing - e.g. a write into a full buffer) and the
+    # text that reached the terminal before it
+    buffering = case.get("buffering", "none")
+    b.handover, b.before = [], []
+    pend, out = [], []
+    for n, kind, s in pts:
+        h = None
+        if kind == "write":
+            if buffering == "none":
+                h = s
+            else:
+                pend.append(s)
+                if buffering == "line" and "\n" in s:
+                    h, pend = "".join(pend), []
+        elif kind == "flush" and buffering != "none":
+            h, pend = "".join(pend), []
+        b.handover.append(h)
+        b.before.append(len(out))
+        if h:
+            out.append(h)
+    b.out = out
     # clean-up = maximal trailing run of restoring writes / flushes, from its first non-empty write
     i = len(pts)
     while i > 0 and (pts[i - 1][1] == "flush" or (pts[i - 1][1] == "write" and CLEANUP_WRITE.match(pts[i - 1][2]))):
@@ -85,20 +109,20 @@ def baseline(case):
 
 
 def cut_points(case, b, j, reduce_runs):
-    """Prefix lengths 1..len-1 of the write at point index j; with *reduce_runs*, only the first and
-    the last of every maximal run of cut positions that leave the terminal parser in the same state with
-    the same control data (cuts inside one base64 payload / one run of plain text are equivalent)."""
-    s = b.points[j][2]
-    if len(s) < 2:
+    """Prefix lengths 1..len-1 of the text handed over at point index j; with *reduce_runs*, only the
+    first and the last of every maximal run of cut positions that leave the terminal parser in the same
+    state with the same control data (cuts inside one base64 payload / one run of plain text are
+    equivalent)."""
+    s = b.handover[j]
+    if not s or len(s) < 2:
         return []
     if not reduce_runs:
         return list(range(1, len(s)))
     cols, rows = case["term"]
     t = vterm.VTerm(cols, rows, case.get("ident", "other"), decode_images=False)
     t.r = case["row0"]
-    for _, kind, payload in b.points[:j]:
-        if kind == "write" and payload:
-            t.feed(payload)
+    for text in b.out[:b.before[j]]:
+        t.feed(text)
     sigs = []
     head, seen_sep, in_str = [], False, False
     for ch in s[:-1]:
@@ -126,13 +150,18 @@ def cut_points(case, b, j, reduce_runs):
 def faults_of(case, b, j, quick):
     """All fault descriptors for point index j (in scope by construction)."""
     n, kind, payload = b.points[j]
+    h = b.handover[j]
+    buffered_stream = case.get("buffering", "none") != "none"
     out = []
     for exc in EXCS:
         out.append(dict(k=n, mode="instead", exc=exc))
         out.append(dict(k=n, mode="after", exc=exc))
-        if kind == "write" and payload:
-            out.append(dict(k=n, mode="partial", exc=exc, prefix=0, buffered=True))
-            for p in cut_points(case, b, j, quick or len(payload) > 700):
+        if h:
+            if not buffered_stream:
+                out.append(dict(k=n, mode="partial", exc=exc, prefix=0, buffered=True))
+            else:                     # nothing reaches the terminal and everything pending is lost
+                out.append(dict(k=n, mode="partial", exc=exc, prefix=0, buffered=False))
+            for p in cut_points(case, b, j, quick or len(h) > 700):
                 out.append(dict(k=n, mode="partial", exc=exc, prefix=p, buffered=False))
                 out.append(dict(k=n, mode="partial", exc=exc, prefix=p, buffered=True))
     return out
@@ -144,7 +173,7 @@ def sig_base(case, b, j, fault):
     prefix length), and the style / terminal (old API) or renderable class / tty settings (new API)."""
     animation = case["frames"] > 1 and case.get("animate", True)
     d = dict(api=case["api"], animated=bool(animation), exc=fault["exc"], mode=fault["mode"],
-             kind=b.points[j][1], setup=j < b.first_render)
+             kind=b.points[j][1], setup=j < b.first_render, buffering=case.get("buffering", "none"))
     if case["api"] == "old":
         d.update(style=case["style"], ident=case.get("ident", "other"))
     else:
@@ -233,6 +262,8 @@ def run_fault(col, case, b, j, fault):
 
 # ------------------------------------------------------------------------------------ configurations
 def build_configs(tier):
+    from .c06 import OLD_COMBOS
+
     quick = tier == "quick"
     cfgs = []
     term = (6, 5)
@@ -261,8 +292,6 @@ def build_configs(tier):
             cfgs.append(dict(api="new", cls=cls, mode=mode, frames=2, loops=1, cache=False, size=(2, 2),
                              pad=("exact", 0, 1, 0, 0, " "), term=term, row0=0, isatty=True, animate=False, seek=1))
     # old API
-    from .c06 import OLD_COMBOS
-
     for (style, ident, method), frames in itertools.product(OLD_COMBOS, (1, 2)):
         for size, fmt in (((1, 1), (None, 1, None, 1)), ((2, 2), (None, 2, None, 2)), ((2, 2), (None, 4, None, 3))):
             if quick and method == "whole" and (size == (1, 1) or fmt[1] == 4):
@@ -285,6 +314,60 @@ def build_configs(tier):
             cfgs.append(dict(api="old", style=style, ident=ident, method=method, frames=2, repeat=1, cached=False,
                              size=(1, 2), fmt=(None, 1, None, 2), term=term, row0=0, isatty=True, src="pil",
                              animate=False, seek=1))
+    # ---- a current frame other than 0 before draw(): tell() must survive an interrupted animation / still
+    for (cls, mode) in news:
+        cfgs.append(dict(api="new", cls=cls, mode=mode, frames=2, loops=1, cache=False, size=(2, 2),
+                         pad=("exact", 0, 0, 0, 0, " "), term=term, row0=1, isatty=True, seek=1))
+        cfgs.append(dict(api="new", cls=cls, mode=mode, frames=2, loops=1, cache=False, size=(1, 1),
+                         pad=("exact", 0, 0, 0, 0, " "), term=term, row0=1, isatty=True, seek=1, animate=False))
+        if not quick:
+            cfgs.append(dict(api="new", cls=cls, mode=mode, frames=3, loops=2, cache=True, size=(2, 1),
+                             pad=("exact", 1, 0, 0, 1, " "), term=term, row0=3, isatty=True, seek=2))
+    for style, ident, method in OLD_COMBOS:
+        if quick and method == "whole":
+            continue
+        for src in (("file",) if quick else ("file", "pil")):
+            cfgs.append(dict(api="old", style=style, ident=ident, method=method, frames=2, repeat=1, cached=False,
+                             size=(1, 1), fmt=(None, 1, None, 1), term=term, row0=1, isatty=True, src=src, seek=1))
+        if not quick:
+            cfgs.append(dict(api="old", style=style, ident=ident, method=method, frames=3, repeat=2, cached=True,
+                             size=(2, 2), fmt=(None, 3, None, 3), term=term, row0=2, isatty=True, src="file", seek=2))
+    for style, ident, method in (OLD_COMBOS[:2] if quick else OLD_COMBOS):
+        cfgs.append(dict(api="old", style=style, ident=ident, method=method, frames=2, repeat=1, cached=False,
+                         size=(1, 1), fmt=(None, 1, None, 1), term=term, row0=1, isatty=True, src="file", seek=1,
+                         animate=False))
+    # ---- buffered stdout (what sys.stdout really is): data reaches the terminal at flush(); a fault during
+    # that hand-over delivers any prefix of everything pending
+    for (cls, mode), frames in itertools.product(news, (1, 2)):
+        for size, pad in (((2, 2), ("exact", 0, 0, 0, 0, " ")), ((2, 2), ("exact", 1, 1, 1, 1, " ")),
+                          ((1, 1), ("aligned", 0, -2, 1, 1, " "))):
+            if quick and (cls == "TextR" and pad[0] != "aligned" or cls != "TextR" and pad[0] == "aligned"):
+                continue
+            for buffering in ("full", "line"):
+                if buffering == "line" and (quick and (frames == 1 or pad[1] == 1) or not isinstance(pad[1], int)):
+                    continue
+                cfgs.append(dict(api="new", cls=cls, mode=mode, frames=frames, loops=1, cache=False, size=size,
+                                 pad=pad, term=term, row0=1, isatty=True, buffering=buffering))
+    if not quick:
+        for (cls, mode) in news:
+            cfgs.append(dict(api="new", cls=cls, mode=mode, frames=3, loops=2, cache=True, size=(2, 2),
+                             pad=("exact", 1, 0, 0, 1, " "), term=term, row0=4, isatty=True, buffering="full",
+                             hide_cursor=False, echo_input=True))
+    for (style, ident, method), frames in itertools.product(OLD_COMBOS, (1, 2)):
+        if quick and (method == "whole") != (ident == "konsole"):
+            continue           # quick: LINES everywhere except konsole (WHOLE)
+        sizes = (((1, 1), (None, 1, None, 1)),) if quick else (((1, 1), (None, 1, None, 1)), ((2, 2), (None, 4, None, 3)))
+        for size, fmt in sizes:
+            cfgs.append(dict(api="old", style=style, ident=ident, method=method, frames=frames, repeat=1, cached=False,
+                             size=size, fmt=fmt, term=term, row0=1, isatty=True, buffering="full",
+                             src="pil" if frames == 1 else "file"))
+        if not quick and method != "whole":
+            cfgs.append(dict(api="old", style=style, ident=ident, method=method, frames=frames, repeat=1, cached=False,
+                             size=(1, 1), fmt=(None, 1, None, 1), term=term, row0=1, isatty=True, buffering="line",
+                             src="pil" if frames == 1 else "file"))
+    cfgs.append(dict(api="old", style="kitty", ident="kitty", method="lines", frames=2, repeat=1, cached=False,
+                     size=(1, 1), fmt=(None, 1, None, 1), term=term, row0=1, isatty=True, cell=(40, 30), compress=0,
+                     src="file", buffering="full"))
     # chunked kitty transmissions (payload > 4096 base64 characters): cell of 40x30 px, no compression
     for method, frames in itertools.product(("lines", "whole"), (1, 2)):
         for ident in (("kitty",) if quick else ("kitty", "konsole")):
@@ -345,8 +428,9 @@ def run(ctx):
         ctx.merge(col)
     ctx.sample(dict(case=_CONFIGS[0], fault=dict(k=1, mode="instead", exc="KeyboardInterrupt")))
     ctx.rule = ("every fault point (write / flush / sleep / frame render) of the fault-free run before clean-up x "
-                "{KeyboardInterrupt, RuntimeError} x {instead, after, partial write at every prefix length x "
-                "{rest lost, rest buffered}}; " +
+                "{KeyboardInterrupt, RuntimeError} x {instead, after, partial hand-over at every prefix length x "
+                "{rest lost, rest buffered}} - the hand-over being the write itself on an unbuffered stdout and "
+                "the flush (or the write of a newline, line discipline) of everything pending on a buffered one; " +
                 ("prefix lengths that leave the terminal parser in the same state with the same control data "
                  "(inside one base64 payload / one run of plain text) are represented by the first and last of "
                  "the run; " if _QUICK else
